@@ -10,6 +10,7 @@ import (
 	"testing"
 
 	"github.com/bilibili/smgo/sm2"
+	"github.com/bilibili/smgo/sm2/internal"
 	"verif/refs/sm2ref"
 	"verif/vx"
 )
@@ -70,7 +71,7 @@ func c03eval(r *vx.R, c c03case) {
 }
 
 func TestVX_C03(t *testing.T) {
-	r := vx.Begin("C03", "verify-exact", "VerifyHashed on: valid base signatures (keys {1,2,n-2,seeded} x digests {seeded,0,2^256-1}); every single-bit flip of pubx, puby, e, r, s (5x256 per base); every argument at lengths {0,1,31,33,64}; r or s in {0,n,n+1,2^256-1}; tuples *solved* to satisfy the verification equation while violating one side condition: r+s=n, r>=n (r+n presented), s>=n, [s]G+[t]P = O (D13), off-curve and non-canonical keys, swapped coordinates, negated key; short-t valid signatures (must be accepted). Oracle: sm2ref.Verify, the seven conditions of GM/T 0003.2 section 7.1. Shape=(mutation class, position, first failing condition)")
+	r := vx.Begin("C03", "verify-exact", "VerifyHashed on: valid base signatures (keys {1,2,n-2,seeded} x digests {seeded,0,2^256-1}); every single-bit flip of pubx, puby, e, r, s (5x256 per base); every argument at lengths {0,1,31,33,64}; r or s in {0,n,n+1,2^256-1}; tuples *solved* to satisfy the verification equation while violating one side condition: r+s=n, r>=n (r+n presented), s>=n, [s]G+[t]P = O (D13), off-curve and non-canonical keys, swapped coordinates, negated key; short-t valid signatures (must be accepted). Oracle: sm2ref.Verify, the seven conditions of GM/T 0003.2 section 7.1. Shape=(mutation class, position, first failing condition); result point [s]G+[t]P steered (public key solved) to points with x1 in {0,1,..; n+j; n-1-j; p-1-j; 2^255+j}, +-y, with e and e+n, and with a wrong r; off-curve keys differing from the curve in structured bit sets, with e solved by the implementation's own arithmetic wherever its decoder lets such a key through")
 	defer r.End()
 	selfCheck()
 	if raw, ok := vx.Replay("verify-exact"); ok {
@@ -249,6 +250,69 @@ func TestVX_C03(t *testing.T) {
 		negY := new(big.Int).Sub(sm2ref.P, P.Y)
 		if yp := new(big.Int).Add(negY, sm2ref.P); yp.BitLen() <= 256 {
 			run(fmt.Sprintf("smallx:%d:-y+p", pi), b32(P.X), b32(yp), b32(e), b32(rv), b32(sv))
+		}
+	}
+	// (viii) the result point [s]G+[t]P steered to points whose x1 is special (0, 1, .., n+j with x1 mod n small, p-1-j,
+	// 2^255+j): r and s are chosen, P = [1/t](R0 - [s]G) needs no private key, e = r - x1. All are valid signatures.
+	{
+		pts, names := sm2ref.SpecialXPoints()
+		for i, R0 := range pts {
+			sv := modN(bi(vx.Fill(fmt.Sprintf("c03spS%d", i), 32)))
+			rv := modN(bi(vx.Fill(fmt.Sprintf("c03spR%d", i), 32)))
+			tv := modN(new(big.Int).Add(rv, sv))
+			if rv.Sign() == 0 || sv.Sign() == 0 || tv.Sign() == 0 {
+				continue
+			}
+			// P = [1/t](R0 - [s]G)
+			Q := sm2ref.Add(R0, sm2ref.Neg(sm2ref.BaseMul(sv)))
+			if Q.Inf {
+				continue
+			}
+			P := sm2ref.Mul(invN(tv), Q)
+			if P.Inf || !sm2ref.MulAdd(sv, tv, P).Equal(R0) {
+				panic("harness: steering the result point failed")
+			}
+			e := modN(new(big.Int).Sub(rv, R0.X))
+			run("result-point:"+names[i], b32(P.X), b32(P.Y), b32(e), b32(rv), b32(sv))
+			if t := new(big.Int).Add(e, bigN); t.BitLen() <= 256 {
+				run("result-point:"+names[i]+":e+n", b32(P.X), b32(P.Y), b32(t), b32(rv), b32(sv))
+			}
+			// the same with a wrong r: must be rejected
+			run("result-point:"+names[i]+":r+1", b32(P.X), b32(P.Y), b32(e), b32(modN(new(big.Int).Add(rv, one))), b32(sv))
+		}
+	}
+	// (ix) off-curve keys that a defective curve check lets through: where the implementation's own decoder accepts a
+	// near-curve key, e is solved with the implementation's own arithmetic so that the equation holds; the standard
+	// rejects the key whatever the equation says
+	{
+		b := bases[0]
+		for qi, q := range []sm2ref.Point{sm2ref.G(), sm2ref.BaseMul(bi(vx.Fill("c03nearq", 32)))} {
+			xs, ys, names := sm2ref.NearCurvePoints(q)
+			for i := range xs {
+				enc := append(append([]byte{4}, b32(xs[i])...), b32(ys[i])...)
+				var x1 *big.Int
+				vx.Try(func() {
+					pt, err := internal.NewSM2Point().SetBytes(enc)
+					if err != nil {
+						return
+					}
+					tv := modN(new(big.Int).Add(bi(b.r), bi(b.s)))
+					res, err := internal.ScalarMixedMult_Unsafe(b.s, pt, b32(tv))
+					if err != nil || res.IsInfinity() == 1 {
+						return
+					}
+					x1 = res.GetAffineX_Unsafe()
+				})
+				if x1 == nil {
+					n++ // keep the enumeration index independent of the implementation's answer
+					if vx.MineIdx(n) {
+						r.Add("near_curve_keys_refused_by_decoder", 1)
+					}
+					continue
+				}
+				e := modN(new(big.Int).Sub(bi(b.r), x1))
+				run(fmt.Sprintf("key:near-curve-solved:%d:%s", qi, names[i]), b32(xs[i]), b32(ys[i]), b32(e), b.r, b.s)
+			}
 		}
 	}
 	// (vii) the id- and message-level verifiers on arguments of the wrong length: false, never a panic
